@@ -63,7 +63,7 @@ def c13(mode, x, again):
         return None                      # `return None` with declared outputs: listed, not judged
     # failure modes
     if e1 is None:
-        return "mode %d (%s): submission succeeded with outputs %r" % (mode, "raise" if mode in (0, 12, 13) else "return value lacks declared outputs", out1)
+        return "mode %d (%s): submission succeeded with outputs %r" % (mode, "raise" if mode in (0, 12, 13, 14) else "return value lacks declared outputs", out1)
     if mode == 0 and "boom-%d" % x not in (str(e1) + "".join(getattr(e1, "__notes__", []))):
         return "failure reported without the recorded error: %r" % (e1,)
     if res is not None and not res.errored:
@@ -406,6 +406,58 @@ class Crash(BaseException):
     """process death: not an Exception, so pydra's own handlers do not see it (as they would not see SIGKILL)"""
 
 
+def c12_stale_lock(workflow, content_kind, use_async, x=1):
+    """a lock file left by a process that died while holding the job's lock (content: 0 empty, 1 pid of a dead process +
+    host name, 2 garbage); the resubmission must end with the right result instead of waiting for ever"""
+    import socket
+    from pydra.engine.submitter import Submitter
+    from pydra.engine.job import Job
+    from vf.hl import sched as S
+    E.reset()
+    R.clear()
+    R.FLAGS["fail"] = False
+    d = E.scratch()
+    res = err = None
+    try:
+        task = D.FlakyWf(x=x) if workflow else D.Flaky(x=x, tag=4)
+        with Submitter(cache_root=d, worker="debug") as sub:
+            lockfile = Job(task, submitter=sub, name="main").lockfile
+        with open(lockfile, "w") as f:
+            f.write(["", "%d\n%s\n" % (2 ** 22 - 3, socket.gethostname()), "garbage"][content_kind])
+        import time as _time
+        old = _time.time() - 3600          # the process died an hour ago (filelock breaks malformed locks only after an age threshold)
+        os.utime(lockfile, (old, old))
+        import contextlib
+        from crosshair.tracers import NoTracing
+        # filelock decides whether a lock is stale from os.getpid()/time.time()/st_mtime, which CrossHair makes symbolic (and
+        # then finds the run non-deterministic): the resubmission (all inputs realised) executes outside the tracer
+        with (NoTracing() if T.tracing() else contextlib.nullcontext()):
+            try:
+                with E.deadline(25):
+                    if use_async:
+                        S.install()
+                        S.reset(())
+                        out, err, ev = S.run_async(task, d, ())
+                        res = out.outputs.out if out is not None and err is None else None
+                    else:
+                        out, err = call(task, cache_root=d)
+                        res = out.out if out is not None else None
+            except E.HangDetected as e:
+                err = S.BudgetExceeded(str(e))
+        if S.STATE.get("budget_hit") and use_async and not isinstance(err, S.BudgetExceeded):
+            err = S.BudgetExceeded(S.STATE["budget_hit"])
+    finally:
+        E.cleanup(d)
+    T.reach()
+    want = ((x * 10 + 1) * 10 + 2) if workflow else x * 10 + 4
+    desc = "%s with a stale lock file (%s), %s loop" % ("workflow" if workflow else "task", ["empty", "dead pid", "garbage"][content_kind], "async" if use_async else "sync")
+    if err is not None:
+        return "%s: %r" % (desc, err)
+    if res != want:
+        return "%s: output %r, expected %r" % (desc, res, want)
+    return None
+
+
 def c12(event, phase, workflow, body_fails_later, x, cut=2, journal=False):
     """kill the 'process' at the event-th persistence event (phase: 0 before, 1 mid-write, 2 after),
     snapshot the cache root as it is at that instant, resubmit against the snapshot"""
@@ -519,9 +571,11 @@ def c12(event, phase, workflow, body_fails_later, x, cut=2, journal=False):
 
 
 # ------------------------------------------------------------------ C19
-def c19(kind, val, base):
-    """body mutates its input in place; changed => error reported, unchanged => no error; identity = inputs as submitted"""
+def c19(kind, val, base, debug_log=False):
+    """body mutates its input in place; changed => error reported, unchanged => no error; identity = inputs as submitted.
+    debug_log: the 'pydra' logger is at DEBUG level (what pydra's own messages recommend for tracking hash changes)"""
     import copy
+    import logging
     E.reset()
     R.clear()
     other0 = None
@@ -532,25 +586,42 @@ def c19(kind, val, base):
     elif kind == 10:
         import numpy as np
         data0 = np.arange([4, 20000, 16384 + 5][base % 3])
+    elif kind == 11:
+        data0 = ([1, base], [3])
+    elif kind == 12:
+        data0 = frozenset([D.Box(base)])
+    elif kind == 13:
+        data0 = [1, (2, {"k": base})][1]
     else:
         data0 = {0: [base, 2], 1: [base, 2], 2: {"k": base}, 3: {base, 2}, 4: D.Box(base), 5: [base, 2], 6: [base, 2], 7: [2, base]}[kind]
-    before = copy.deepcopy(data0.v if kind == 4 else data0)
+    snap = (lambda v: copy.deepcopy(next(iter(v)).v)) if kind == 12 else (lambda v: copy.deepcopy(v.v if kind == 4 else v))
+    before = snap(data0)
     before_other = copy.deepcopy(other0)
     d = E.scratch()
+    lg = logging.getLogger("pydra")
+    level = lg.level
     try:
-        t = D.Mutator(data=data0, kind=kind, val=val, other=other0)
-        cs = t._checksum
-        out, err = call(t, cache_root=d)
-        dirs = job_dirs(d)
+        if debug_log:
+            lg.setLevel(logging.DEBUG)
+        import contextlib
+        from crosshair.tracers import NoTracing
+        # log records carry time.time(), which CrossHair makes symbolic: most traced paths would end inside the logging
+        # module, so the DEBUG-level runs (inputs already realised) execute outside the tracer
+        with (NoTracing() if debug_log and T.tracing() else contextlib.nullcontext()):
+            t = D.Mutator(data=data0, kind=kind, val=val, other=other0)
+            cs = t._checksum
+            out, err = call(t, cache_root=d)
+            dirs = job_dirs(d)
     finally:
+        lg.setLevel(level)
         E.cleanup(d)
     T.reach()
-    after = data0.v if kind == 4 else data0
+    after = snap(data0)
     if kind == 10:
         changed = bool((after != before).any())
     else:
         changed = after != before or other0 != before_other
-    desc = "mutation kind %d val %d on %r" % (kind, val, before)
+    desc = "mutation kind %d val %d on %r%s" % (kind, val, before, " (pydra logger at DEBUG)" if debug_log else "")
     if changed and err is None:
         return "%s: the input was changed to %r during execution and no error was reported" % (desc, after)
     if not changed and err is not None:
